@@ -6,7 +6,7 @@ Model: `copyV`, `getstate`/`setstate`/`newFromArgs` (`pickleRT`), `addV`, `sumV`
 "Both views" = `abs` (token list, key order, all values of every name, list-all flags) — `as_list`, `as_dict`,
 `dump`, `keys`, `len` are functions of it and of the (unchanged, opaque) values.
 The aliasing clauses of C11 (a mutation of the copy never reaches the original) are not value-level
-statements; see `PPProofs/Props/C11Heap.lean` when present, otherwise they are decided by the oracle only.
+statements; see `PPProofs/Props/C11Heap.lean` (heap model).
 -/
 namespace PP.PR
 open PP.PyList PP.PyDict
